@@ -74,6 +74,10 @@ pub struct Spec {
     pub ty: u8,
     /// virtual ms every stream item handler sleeps
     pub item_sleep: u64,
+    /// in which order and on which builder stage timeout / fail_on_timeout are configured:
+    /// 0 timeout, fail (base); 1 fail, timeout (base); 2 timeout, fail (after the channel); 3 fail, timeout (after the channel)
+    #[serde(default)]
+    pub cfg_order: u8,
 }
 impl Default for Spec {
     fn default() -> Self {
@@ -88,6 +92,7 @@ impl Default for Spec {
             stopped: vec![],
             finished: vec![],
             ty: 0,
+            cfg_order: 0,
             item_sleep: 0,
         }
     }
